@@ -711,57 +711,116 @@ def run_chains(run, cases, impl_exe, model_exe, tier, label):
 def reuse_stages(c, rr):
     """objects built from the SAME atom values bound to locals: every atom, the growing prefixes
     s1 = x0 + x1, s2 = s1 + x2, ..., and objects that reuse an operand in another sum
-    (x0 + x_last, x1 + x0, s1 + s1, std.objectRemoveKey(s_last, n) + x0).
-    returns (bindings [(local name, text)], stages [(local name, expr)])"""
+    (x0 + x_last, x1 + x0, s1 + s1, std.objectRemoveKey(s_last, n) + x0, x_last + s1).
+    returns (bindings [(local name, text)], stages [(local name, expr, operand locals)])"""
     atoms, names = c['atoms'], c['names']
     k = len(atoms)
     texts = [render_expr(rr, a) for a in atoms]
     binds = [('x%d' % i, texts[i]) for i in range(k)]
-    stages = [('x%d' % i, atoms[i]) for i in range(k)]
+    stages = [('x%d' % i, atoms[i], []) for i in range(k)]
     prev_n, prev_e = 'x0', atoms[0]
     for i in range(1, k):
         e = ['P', prev_e, atoms[i]]
         form = '%s + x%d' % (prev_n, i)
-        if atoms[i][0] == 'L' and rr.random() < 0.3:
+        ops = [prev_n, 'x%d' % i]
+        if atoms[i][0] == 'L' and rr.random() < 0.2:
             form = '%s %s' % (prev_n, texts[i])          # obj { ... } on a bound object (a fresh literal, same layer)
+            ops = [prev_n]
         binds.append(('s%d' % i, form))
-        stages.append(('s%d' % i, e))
+        stages.append(('s%d' % i, e, ops))
         prev_n, prev_e = 's%d' % i, e
-    extra = [('t', ['P', atoms[0], atoms[k - 1]], 'x0 + x%d' % (k - 1)),
-             ('u', ['P', atoms[1], atoms[0]], 'x1 + x0'),
-             ('w', ['P', ['P', atoms[0], atoms[1]], ['P', atoms[0], atoms[1]]], 's1 + s1')]
+    s1e = ['P', atoms[0], atoms[1]]
+    extra = [('t', ['P', atoms[0], atoms[k - 1]], 'x0 + x%d' % (k - 1), ['x0', 'x%d' % (k - 1)]),
+             ('u', ['P', atoms[1], atoms[0]], 'x1 + x0', ['x1', 'x0']),
+             ('w', ['P', s1e, s1e], 's1 + s1', ['s1'])]
     rn = rr.choice(names)
-    extra.append(('v', ['P', ['R', prev_e, rn], atoms[0]], 'std.objectRemoveKey(%s, %s) + x0' % (prev_n, jstr(rn))))
+    extra.append(('v', ['P', ['R', prev_e, rn], atoms[0]], 'std.objectRemoveKey(%s, %s) + x0' % (prev_n, jstr(rn)), [prev_n, 'x0']))
     if k >= 3:
-        extra.append(('y', ['P', atoms[k - 1], ['P', atoms[0], atoms[1]]], 'x%d + s1' % (k - 1)))
-    for n, e, form in extra:
+        extra.append(('y', ['P', atoms[k - 1], s1e], 'x%d + s1' % (k - 1), ['x%d' % (k - 1), 's1']))
+    for n, e, form, ops in extra:
         binds.append((n, form))
-        stages.append((n, e))
+        stages.append((n, e, ops))
+    # right operands of every construction kind that override a field some assert reads (or any name)
+    # with 0 — so that an inherited assert may fail in the combination only
+    read = sorted(set(x for a in atoms for x in assert_reads(a, [])))
+    kinds = ['lit', 'comp', 'mergePatch', 'prune', 'mapWithKey', 'removeKey', 'plus']
+    rr.shuffle(kinds)
+    for j, kind in enumerate(kinds[:2]):
+        g = rr.choice(read) if read and rr.random() < 0.8 else rr.choice(names)
+        h = rr.choice([n for n in names if n != g])
+        zero = ['L', [[g, 'd', 0, ['n', 0]]], 'lit', []]
+        if kind == 'lit':
+            oe = zero
+        elif kind == 'comp':
+            oe = ['L', [[g, 'd', 0, ['n', 0]]], 'comp', []]
+        elif kind == 'mergePatch':
+            oe = ['G', ['L', [], 'lit', []], zero]
+        elif kind == 'prune':
+            oe = ['N', ['L', [[g, 'd', 0, ['n', 0]], [h, 'd', 0, ['u']]], 'lit', []]]
+        elif kind == 'mapWithKey':
+            oe = ['M', 10, ['L', [[g, 'd', 0, ['n', -10]]], 'lit', []]]
+        elif kind == 'removeKey':
+            oe = ['R', ['L', [[g, 'd', 0, ['n', 0]], [h, 'd', 0, ['n', 1]]], 'lit', []], h]
+        else:
+            oe = ['P', ['L', [[h, 'h', 0, ['n', 1]]], 'lit', []], zero]
+        on, zn = 'ov%d' % j, 'z%d' % j
+        binds.append((on, render_expr(rr, oe)))
+        stages.append((on, oe, []))
+        binds.append((zn, '%s + %s' % (prev_n, on)))
+        stages.append((zn, ['P', prev_e, oe], [prev_n, on]))
     return binds, stages
 
 
+def assert_reads(e, acc):
+    """names read through self by the asserts of the literals of e"""
+    if e[0] == 'L':
+        for a in (e[3] if len(e) > 3 else []):
+            body_self_names(a[1], acc)
+    elif e[0] in 'PG':
+        assert_reads(e[1], acc); assert_reads(e[2], acc)
+    elif e[0] in 'RN':
+        assert_reads(e[1], acc)
+    elif e[0] == 'M':
+        assert_reads(e[2], acc)
+    return acc
+
+
+def body_self_names(b, acc):
+    if b[0] == 's':
+        acc.append(b[1])
+    elif b[0] == 'a':
+        body_self_names(b[1], acc); body_self_names(b[2], acc)
+    return acc
+
+
 def run_reuse(run, cases, impl_exe, model_exe, tier):
-    """One object VALUE observed at several places of one program: forced (some fields, length,
-    manifestation) and then extended on either side, every stage observed, in a random order.
-    The model evaluates every observation independently; the program's answer must be the list of
-    the model's answers (K), and must not depend on the order of the observations (oracle)."""
+    """One object VALUE observed at several places of one program: forced in varied ways (field
+    read, std.length, std.objectHas, std.objectFields, manifestation, ==) and then extended on
+    either side, every stage observed, in a random order; optionally the program ends with ONE
+    observation that the model says fails (typically an assert of a sum that only fails in the
+    combination), placed after observations of both operands of that sum.  The model evaluates every
+    observation on its own (asserts of the final object every time, no history); the program must
+    answer the list of the model's answers, or fail with the model's error (variant + user message)
+    (K), and its outcome must not depend on the order of the observations (oracle)."""
     mlines, meta = [], {}
     for c in cases:
         rr = random.Random('%s/reuse' % c['rseed'])
         binds, stages = reuse_stages(c, rr)
         meta[c['id']] = (binds, stages, rr)
         nmt = ' '.join(nm_tok(n) for n in c['names'])
-        for sn, e in stages:
+        for sn, e, _ in stages:
             mlines.append('%s~%s\t%s\t%s' % (c['id'], sn, expr_tok(e), nmt))
     model = vlib.run_sharded(model_exe, mlines, timeout=600)
     B = Batch(impl_exe)
     plan = {}
+    nobs = 14 if tier == 'quick' else 24
     for c in cases:
         cid, names = c['id'], c['names']
         binds, stages, rr = meta[cid]
-        obs = []          # (text, expected python value)
+        good = {}         # stage -> [(text, expected, forces_asserts)]
+        failing = []      # (stage, text, error kind, operands)
         ok = True
-        for sn, e in stages:
+        for sn, e, ops in stages:
             mr = model.get('%s~%s' % (cid, sn), 'NOOUTPUT')
             if mr.startswith('MODELEXC') or mr == 'NOOUTPUT' or 'MODELPANIC' in mr or 'MODELFUEL' in mr:
                 run.violation('model-machinery', 'model driver failed on a reuse stage: %s' % mr[:200],
@@ -771,76 +830,101 @@ def run_reuse(run, cases, impl_exe, model_exe, tier):
             M = model_answer(mr)
             if M.get('B') != 'ok':
                 continue          # this local is never forced (building it fails; covered by the chain check)
+            g = good.setdefault(sn, [])
             mvals = M['val'].split(',')
+            hasb = [x == '1' for x in M['has'].split(',')]
             fields = [un_nm(t) for t in M['fields'].split(',')] if M['fields'] else []
             for i, n in enumerate(names):
                 mv = model_val(mvals[i])
                 if mv[0] == 'OK':
-                    obs.append(('%s[%s]' % (sn, jstr(n)), mv[1]))
-            obs.append(('std.length(%s)' % sn, int(M['len'], 16)))
-            obs.append(('std.objectFields(%s)' % sn, fields))
+                    g.append(('%s[%s]' % (sn, jstr(n)), mv[1], True))
+                elif mv[0] == 'ERR' and mv[1] != 'UnknownObjectField':
+                    failing.append((sn, '%s[%s]' % (sn, jstr(n)), mv[1], ops))
+                g.append(('std.objectHas(%s, %s)' % (sn, jstr(n)), hasb[i], False))
+            g.append(('std.length(%s)' % sn, int(M['len'], 16), False))
+            g.append(('std.objectFields(%s)' % sn, fields, False))
             if not M['man'].startswith('E'):
                 pairs = [(un_nm(x.split(':')[0]), model_val(x.split(':')[1])[1]) for x in M['man'].split(',')] if M['man'] else []
-                obs.append((sn, [('__obj__', None)] + pairs))
-        if not ok or not obs:
+                g.append((sn, [('__obj__', None)] + pairs, True))
+                g.append(('(%s + { }) == %s' % (sn, sn), True, True))      # manifestation of a copy, and ==
+            else:
+                failing.append((sn, sn, M['man'][1:], ops))
+        if not ok or not any(good.values()):
             continue
+        # the failing observation (if any): prefer a sum whose operands can be forced first, and assert failures
+        last = None
+        if failing and rr.random() < 0.7:
+            def weight(f):
+                w = 1
+                if f[2].startswith('AssertFailed'):
+                    w *= 6
+                if f[3] and all(any(o[2] for o in good.get(op, [])) for op in f[3]):
+                    w *= 6
+                return w
+            last = rr.choices(failing, weights=[weight(f) for f in failing])[0]
+        obs = []
+        if last:
+            for op in last[3]:
+                forcing = [o for o in good.get(op, []) if o[2]]
+                rr.shuffle(forcing)
+                obs += forcing[:rr.choice([1, 1, 2])]
+        pool = [o for g in good.values() for o in g if o not in obs]
+        rr.shuffle(pool)
+        obs += pool[:max(0, nobs - len(obs))]
         rr.shuffle(obs)
-        obs = obs[:14 if tier == 'quick' else 24]
         perm = list(range(len(obs)))
         rr.shuffle(perm)
+        tail = [last[1]] if last else []
         head = prelude(names) + 'local ' + ', '.join('%s = %s' % (n, t) for n, t in binds) + '; '
         B.prelude = ''
-        B.add('%s/reuse/a' % cid, head + '[' + ', '.join(t for t, _ in obs) + ']')
-        B.add('%s/reuse/b' % cid, head + '[' + ', '.join(obs[j][0] for j in perm) + ']')
-        plan[cid] = (obs, perm)
+        B.add('%s/reuse/a' % cid, head + '[' + ', '.join([o[0] for o in obs] + tail) + ']')
+        B.add('%s/reuse/b' % cid, head + '[' + ', '.join([obs[j][0] for j in perm] + tail) + ']')
+        plan[cid] = (obs, perm, last)
     B.run()
     for c in cases:
         cid = c['id']
         if cid not in plan:
             continue
-        obs, perm = plan[cid]
+        obs, perm, last = plan[cid]
         run.evaluations += 2
         run.count('reuse_programs', 2)
-        run.count('reuse_observations', len(obs))
+        run.count('reuse_observations', len(obs) + (1 if last else 0))
+        if last:
+            run.count('reuse_ends_in_failure')
+            if last[2].startswith('AssertFailed'):
+                run.count('reuse_ends_in_assert_failure')
         a, b = B.get('%s/reuse/a' % cid), B.get('%s/reuse/b' % cid)
         replay = {'kind': 'chain', 'names': c['names'], 'atoms': c['atoms'], 'tree': c['tree'], 'rseed': c['rseed'],
                   'program': B.text['%s/reuse/a' % cid], 'other_program': B.text['%s/reuse/b' % cid]}
-        want = [v for _, v in obs]
+        want = [o[1] for o in obs]
+        reported = False
         for tag, ans, order in (('a', a, list(range(len(obs)))), ('b', b, perm)):
-            exp = [want[j] for j in order]
-            if ans != ('OK', exp):
+            exp = ('ERR', last[2]) if last else ('OK', [want[j] for j in order])
+            if ans != exp:
                 bad = None
-                if ans[0] == 'OK' and isinstance(ans[1], list) and len(ans[1]) == len(exp):
+                if not last and ans[0] == 'OK' and isinstance(ans[1], list) and len(ans[1]) == len(exp[1]):
                     for pos, j in enumerate(order):
-                        if ans[1][pos] != exp[pos]:
-                            bad = 'observation %s: implementation %r, model (evaluated on its own) %r' % (obs[j][0], ans[1][pos], exp[pos])
+                        if ans[1][pos] != exp[1][pos]:
+                            bad = 'observation %s: implementation %r, model (evaluated on its own) %r' % (obs[j][0], ans[1][pos], exp[1][pos])
                             break
+                elif last:
+                    bad = 'the last observation %s fails with %s in the model (evaluated on its own); the program answers %s' % (last[1], last[2], str(ans[:2])[:300])
                 run.violation('reuse-stale-value', 'one object value observed and then extended: %s | program: %s'
-                              % (bad or ('implementation %s' % (ans[:2],)), B.text['%s/reuse/%s' % (cid, tag)][:600]), replay)
+                              % (bad or ('implementation %s' % (ans[:2],)), B.text['%s/reuse/%s' % (cid, tag)][:700]), replay)
+                reported = True
                 break
-        else:
-            continue
-        # (reported above)
-    # order independence on the implementation alone
-    for c in cases:
-        cid = c['id']
-        if cid not in plan:
-            continue
-        obs, perm = plan[cid]
-        a, b = B.get('%s/reuse/a' % cid), B.get('%s/reuse/b' % cid)
-        if a[0] == 'OK' and b[0] == 'OK' and isinstance(a[1], list) and isinstance(b[1], list) and len(a[1]) == len(b[1]) == len(obs):
-            if [a[1][j] for j in perm] != b[1]:
-                j = next(pos for pos, jj in enumerate(perm) if a[1][jj] != b[1][pos])
+        # order independence on the implementation alone
+        if a[0] == 'OK' and b[0] == 'OK' and isinstance(a[1], list) and isinstance(b[1], list) and len(a[1]) == len(b[1]) and len(a[1]) >= len(obs):
+            pa = [a[1][j] for j in perm] + a[1][len(obs):]
+            if pa != b[1]:
+                j = next(pos for pos in range(len(b[1])) if pa[pos] != b[1][pos])
+                what = obs[perm[j]][0] if j < len(obs) else last[1]
                 run.violation('observation-order-dependence',
                               'the same observation %s yields %r or %r depending on what was observed before | programs: %s  ///  %s'
-                              % (obs[perm[j]][0], a[1][perm[j]], b[1][j], B.text['%s/reuse/a' % cid][:500], B.text['%s/reuse/b' % cid][:500]),
-                              {'kind': 'chain', 'names': c['names'], 'atoms': c['atoms'], 'tree': c['tree'], 'rseed': c['rseed'],
-                               'program': B.text['%s/reuse/a' % cid], 'other_program': B.text['%s/reuse/b' % cid]})
-        elif a[0] != b[0]:
-            run.violation('observation-order-dependence', 'the program succeeds or fails depending on the order of its observations: %s vs %s' % (a[:2], b[:2]),
-                          {'kind': 'chain', 'names': c['names'], 'atoms': c['atoms'], 'tree': c['tree'], 'rseed': c['rseed'],
-                           'program': B.text['%s/reuse/a' % cid], 'other_program': B.text['%s/reuse/b' % cid]})
-
+                              % (what, pa[j], b[1][j], B.text['%s/reuse/a' % cid][:500], B.text['%s/reuse/b' % cid][:500]), replay)
+        elif a[:2] != b[:2] and (a[0] != 'OK' or b[0] != 'OK'):
+            run.violation('observation-order-dependence', 'the program succeeds or fails (or fails differently) depending on the order of its observations: %s vs %s | programs: %s  ///  %s'
+                          % (str(a[:2])[:200], str(b[:2])[:200], B.text['%s/reuse/a' % cid][:500], B.text['%s/reuse/b' % cid][:500]), replay)
 
 
 def literal_name_counts(e, acc):
